@@ -17,11 +17,13 @@ import (
 type MultiSpec struct {
 	Conns []*WriterSpec `json:"conns"`
 	Sched []int         `json:"sched"` // the connection that performs its next op, in order
+	SharedPool bool      `json:"shared_pool,omitempty"` // the pooled connections share one BufferPool
 }
 
 func multiExec(s core.Spec) core.Exec {
 	sp := s.(*MultiSpec)
 	n := len(sp.Conns)
+	shared := &sharedFree{}
 	type msg struct{ done bool }
 	req := make([]chan msg, n)
 	grant := make([]chan struct{}, n)
@@ -33,6 +35,9 @@ func multiExec(s core.Spec) core.Exec {
 		grant[i] = make(chan struct{})
 		c := *sp.Conns[i]
 		i := i
+		if c.Pooled && sp.SharedPool {
+			c.shared = shared
+		}
 		c.turn = func(int) { req[i] <- msg{}; <-grant[i] }
 		c.finish = func() {}
 		go func() {
@@ -116,10 +121,14 @@ func c02mGen(rng *rand.Rand, tier string) []core.Spec {
 	}
 	var out []core.Spec
 	for i := 0; i < n; i++ {
-		sp := &MultiSpec{}
+		sp := &MultiSpec{SharedPool: rng.Intn(2) == 0}
 		nc := 2 + rng.Intn(3)
 		for k := 0; k < nc; k++ {
-			c := &WriterSpec{Prop: 10, Server: rng.Intn(2) == 0, WBuf: core.Pick(rng, []int{125, 1024, 0}), Negotiated: rng.Intn(4) != 0, FailAt: -1}
+			c := &WriterSpec{Prop: 20, Server: rng.Intn(2) == 0, WBuf: core.Pick(rng, []int{125, 1024, 0}), Negotiated: rng.Intn(4) != 0, FailAt: -1}
+			if sp.SharedPool {
+				// same buffer size everywhere: a pool hands any buffer to any connection
+				c.Pooled, c.WBuf, c.Negotiated = true, 1024, rng.Intn(3) == 0
+			}
 			// 1-3 messages by NextWriter / Write / Close (so that compressed writers stay open across
 			// the other connections' turns), sometimes closed twice, sometimes left to the implicit close
 			for m := 1 + rng.Intn(3); m > 0; m-- {
